@@ -192,6 +192,7 @@ impl Oplog {
                     // Remove all trailing partial entries
                     while !partials.is_empty() && partials[partials.len() - 1] {
                         entries.pop();
+                        partials.pop();
                     }
                     outcome.entries = Some(entries.into_boxed_slice());
                 }
